@@ -205,7 +205,8 @@ def profile_C02(g, tier):
     sels = SMALL if tier == "quick" else MEDIUM
     scen = base_scenario(g, selections=sels, generated_p=0.15, tier=tier)
     fam = scen["families"]
-    kind = g.pick("kind", ["plain", "outcomes", "outcomes", "persistent", "persistent", "lost", "retry-create", "dry", "populate"])
+    kind = g.pick("kind", ["plain", "outcomes", "outcomes", "persistent", "persistent", "lost", "retry-create", "dry", "populate",
+                           "overrun", "slow-worker"])
     scen["kind"] = kind
     if kind in ("outcomes", "retry-create"):
         fam["p_fail"] = g.pick("p_fail", [0.2, 0.4])
@@ -225,6 +226,17 @@ def profile_C02(g, tier):
         fam["durations"] = "unit"
     elif kind == "dry":
         scen["params"]["dry_run"] = "yes"
+    elif kind == "overrun":
+        # executions far beyond test_timeout x max_tries: waiting workers are granted re-entrancy on purpose;
+        # the run still has to end with definite results
+        scen["params"]["test_timeout"] = g.pick("tt", [5, 20])
+        fam["durations"] = "long"
+        fam["p_fail"] = g.pick("p_fail", [0.0, 0.2])
+        scen["exec_budget"] = 600
+    elif kind == "slow-worker":
+        workers = scen["nets"].split()
+        fam["slow_worker"] = {"worker": g.pick("slow", workers), "factor": g.pick("factor", [10, 100])}
+        fam["p_fail"] = g.pick("p_fail", [0.0, 0.2])
     elif kind == "populate":
         fam["p_pop_shared"] = g.pick("ppop", [0.3, 0.7])
         fam["p_fail"] = g.pick("p_fail", [0.0, 0.2])
